@@ -21,6 +21,7 @@ import machine_h as mh
 import datafile_h as dh
 
 import rebench.persistence as pers
+import rebench.executor as rexec
 
 IMPORTS = mh.IMPORTS
 
@@ -149,8 +150,49 @@ class SlowFile:
         return getattr(self._f, name)
 
 
+CORES = [2, 16, 3, 4, 16, 5, 8, 64]
+
+
+def hand_out_part(chk):
+    """ParallelScheduler's thread count and chunking vs Model.Par (exhaustive over the stated ranges)"""
+    o_cpu = rexec.cpu_count
+    exprs, obs = [], []
+    try:
+        for cores in list(range(1, 41)) + [48, 64, 96, 128, 256, 1024]:
+            rexec.cpu_count = lambda cores=cores: cores
+            for k in (range(0, 41) if cores <= 16 else (0, 1, 2, 7, 40)):
+                class Ex:
+                    runs = []
+                ps = rexec.ParallelScheduler(Ex(), rexec.BatchScheduler, None, False)
+                ps._remaining_work = list(range(k))
+                chunks = []
+                case = dict(cores=cores, runs=k)
+                if ps._num_worker_threads < 1:
+                    # no worker would ever call acquire_work: nothing of the remaining work is executed
+                    if k:
+                        chk.violation("C11 the parallel scheduler hands every non-exclusive run to a worker exactly once (it has no worker thread)",
+                                      case, ">= 1 worker thread", ps._num_worker_threads)
+                    continue
+                for _ in range(k + 2):
+                    w = ps.acquire_work()
+                    if w is None:
+                        break
+                    chunks.append(list(w))
+                if sorted(x for c in chunks for x in c) != list(range(k)) or ps._remaining_work or any(not c for c in chunks):
+                    chk.violation("C11 the parallel scheduler hands every non-exclusive run to a worker exactly once", case,
+                                  list(range(k)), dict(chunks=chunks, remaining=ps._remaining_work))
+                exprs.append("sx_hand_out %d %d%%nat" % (cores, k))
+                obs.append((case, [ps._num_worker_threads, chunks, list(ps._remaining_work)]))
+                chk.case(("hand_out", cores, k))
+    finally:
+        rexec.cpu_count = o_cpu
+    chk.count("hand_out_cases", len(exprs))
+    return exprs, obs
+
+
 def parallel_part(chk, exprs):
     rng = chk.rng
+    o_cpu = rexec.cpu_count
     n = 50 if chk.tier == "quick" else 600
     o_open = pers._FilePersistence._open_file_and_append_execution_comment
 
@@ -183,8 +225,21 @@ def parallel_part(chk, exprs):
                     s.exclusive = False
                 fp = os.path.join(d, "par.data")
                 sched = rng.choice(["batch", "round-robin", "random"])
-                obs = mh.run_impl(specs, fp, sched, seed=rng.randint(0, 999))
+                # the machine: a simulated number of cores (multiprocessing.cpu_count as seen by the executor) and, in every
+                # fourth session, a configured parallel_interference_factor (documented as lowering the degree of parallelism)
+                cores = CORES[i % len(CORES)]
+                factor = [None, None, None, 1.0, None, None, None, 10.5, None, None, None, 2.5, None, None, None, 100.0][i % 16]
+                rexec.cpu_count = lambda cores=cores: cores
+                mh.RUNS_LEVEL = {"parallel_interference_factor": factor} if factor else None
+                try:
+                    obs = mh.run_impl(specs, fp, sched, seed=rng.randint(0, 999))
+                finally:
+                    rexec.cpu_count = o_cpu
+                    mh.RUNS_LEVEL = None
                 case["local_scheduler"] = sched
+                case["simulated_cores"] = cores
+                case["parallel_interference_factor"] = factor
+                chk.count("parallel_cores_%d" % cores)
                 if isinstance(obs.result, str) or isinstance(ref.result, str):
                     chk.violation("C11 a session under the parallel scheduler ends without an exception", case, "no exception",
                                   "%s %r" % (obs.result, obs.ses.exc))
@@ -236,10 +291,23 @@ def parallel_part(chk, exprs):
 
 
 def run(chk):
-    chk.prove(models=["Model/Machine"])
+    chk.prove(models=["Model/Machine", "Model/Par"])
     exprs = []
     sequential_part(chk, exprs)
     parallel_part(chk, exprs)
+    hexprs, hobs = hand_out_part(chk)
+    try:
+        hres = core.coq_eval(["Gen.GenPar", "Model.Par"], hexprs, chk.scratch, chunk=300, jobs=8)
+        nh = 0
+        for (case, o), m in zip(hobs, hres):
+            if m != o:
+                nh += 1
+                if nh <= 3:
+                    chk.obligation_broken("correspondence", "Model.Par.hand_out vs ParallelScheduler (threads, chunks)",
+                                          "case %s\n impl  %s\n model %s" % (case, o, m))
+        chk.count("hand_out_disagreements", nh)
+    except core.BuildError as exc:
+        chk.obligation_broken("correspondence", "model evaluation (Model.Par)", exc)
     try:
         res = core.coq_eval(IMPORTS, [e[5] for e in exprs], chk.scratch, chunk=40, jobs=16)
     except core.BuildError as exc:
